@@ -178,3 +178,32 @@ CONTRACTS.append(Contract(
     opaque=['CIMMethod'],
     ensures=[('a-CIMMethod', 'isinstance(result, CIMMethod)')],
     raises=PARSE_ERR))
+
+# ---- QUALIFIER.DECLARATION
+parse_any_scope_c = Contract(P + 'parse_any', returns=Ref('NocaseDict'), raises=PARSE_ERR, trusted=True,
+                             notes='the SCOPE child, parsed by parse_scope')
+NO_VALUE_CHILD = no_child('VALUE', 'VALUE.ARRAY').replace('caller_', '')
+qualifier_declaration_init_c = Contract(
+    O + 'CIMQualifierDeclaration.__init__', trusted=True, raises=INIT_ERR,
+    requires=[('name-and-type-from-the-attributes', f"name == {A}['NAME'] and type == {A}['TYPE']"),
+              ('ISARRAY-default-false', flavor('is_array', 'ISARRAY', False)),
+              ('ARRAYSIZE-optional-as-integer', ARRAYSIZE),
+              ('OVERRIDABLE-default-true', flavor('overridable', 'OVERRIDABLE', True)),
+              ('TOSUBCLASS-default-true', flavor('tosubclass', 'TOSUBCLASS', True)),
+              ('TOINSTANCE-default-false', flavor('toinstance', 'TOINSTANCE', False)),
+              ('TRANSLATABLE-default-false', flavor('translatable', 'TRANSLATABLE', False)),
+              ('no-SCOPE-child-means-no-scopes', f"implies({no_child('SCOPE')}, scopes is None)"),
+              ('no-value-child-means-NULL', f"implies({no_child('VALUE', 'VALUE.ARRAY')}, value is None)")])
+CONTRACTS.append(Contract(
+    P + 'parse_qualifier_declaration', params={'self': TP, 'tup_tree': TNODE},
+    requires=[ARRAYSIZE_IS_DECIMAL],
+    callees={'check_node': check_node_for('QUALIFIER.DECLARATION', ('NAME', 'TYPE')), 'unpack_value': unpack_value_null_c,
+             'unpack_boolean': unpack_boolean_c, 'parse_any': parse_any_scope_c,
+             'CIMQualifierDeclaration.__init__': qualifier_declaration_init_c},
+    opaque=['CIMQualifierDeclaration'],
+    loops={1: LoopSpec(target='child', types={'scopes': Opt(Ref('NocaseDict')), 'value': Opt(Ref('value'))},
+                       invariant=[('no-SCOPE-child-so-far-means-no-scopes',
+                                   "implies(forall(lambda k: tup_tree[2][k][0] != 'SCOPE', 0, _i), scopes is None)"),
+                                  ('no-value-child-means-NULL', f"implies({NO_VALUE_CHILD}, value is None)")])},
+    ensures=[('a-CIMQualifierDeclaration', 'isinstance(result, CIMQualifierDeclaration)')],
+    raises=PARSE_ERR))
